@@ -7,7 +7,12 @@
  *   - strncmp / strncasecmp on string literals: loop-free executable models (n <= 12) that read exactly the
  *     bytes the C functions read, so CBMC's pointer checks apply to them,
  *   - strtol, std::stoi, std::stod, std::stoul: stubs returning harness-chosen values (may "throw").
- * `line` / `string` are by-value parameters: they are bound as locals in a prologue of body(). */
+ * The scanning cursor `line` (a by-value char* parameter in _parseSettingsLine, a char* local in
+ * parseSettingsString) is given the stub type LineCursor = (ghost buffer base, int offset) with exactly the
+ * operations the bodies use (*line, line++, conversion to char*).  Reason: a loop contract must havoc the loop
+ * variable, and CBMC dereferences a havoc'd RAW pointer by a case split over every object of the program
+ * (measured: > 5 min for 4 of the 12 loops); havocking an int offset into a known buffer is cheap and says the
+ * same thing.  Every access through the cursor is bounds/pointer-checked by CBMC as gp_line[off]. */
 #include "verif.h"
 #include "constants.h"
 
@@ -21,7 +26,8 @@ extern "C" {
    /* ghosts, defined in contract.c */
    extern char* gp_line; extern int g_len;
    extern const unsigned char* gp_mb; extern const unsigned char* gp_mi; extern const unsigned char* gp_mr;
-   extern char* gp_type; extern char* gp_name; extern char* gp_val;
+   extern int* gp_off;                                 /* alias of the cursor's offset, for the loop contracts */
+   extern int g_ptoff, g_pnoff, g_pvoff;               /* offsets of the last type / name / value token handed to a stub */
    extern int g_ncalls, g_nsets, g_set_kind, g_set_param, g_set_bval, g_set_ival, g_set_init, g_set_ret;
    extern int g_spec_bval, g_type_tag, g_name_seed_ok, g_toff, g_noff, g_voff;
    extern double g_set_rval; extern unsigned int g_set_uval;
@@ -44,7 +50,7 @@ static inline int strncmp(const char* a, const char* b, size_t n)
 {
    __CPROVER_assert(n <= 12, "literal strncmp model covers n <= 12");
    g_ncalls++;
-   if(n == 11) gp_name = (char*)a; else gp_type = (char*)a;
+   if(n == 11) g_pnoff = (int)(a - gp_line); else g_ptoff = (int)(a - gp_line);
 #define FOLD(c) (c)
    CMP_ALL
 #undef FOLD
@@ -55,7 +61,7 @@ static inline int strncasecmp(const char* a, const char* b, size_t n)
 {
    __CPROVER_assert(n <= 12, "literal strncasecmp model covers n <= 12");
    g_ncalls++;
-   gp_val = (char*)a;
+   g_pvoff = (int)(a - gp_line);
 #define FOLD(c) verif_lower(c)
    CMP_ALL
 #undef FOLD
@@ -71,7 +77,7 @@ static inline long strtol(const char* s, char** end, int base)
    CSTRING_ARG(s);
    __CPROVER_assert(end == nullptr && (base == 4 || base == 5), "strtol stub: only the calls of the slice");
    g_ncalls++;
-   gp_val = (char*)s;
+   g_pvoff = (int)(s - gp_line);
    return base == 4 ? g_strtol4 : g_strtol5;
 }
 
@@ -85,19 +91,19 @@ namespace std
 {
 static inline int stoi(const char* s)
 {
-   CSTRING_ARG(s); g_ncalls++; gp_val = (char*)s;
+   CSTRING_ARG(s); g_ncalls++; g_pvoff = (int)(s - gp_line);
    if(!g_conv_ok) CONV_THROW("std::stoi")
    return g_stoi_ret;
 }
 static inline double stod(const char* s)
 {
-   CSTRING_ARG(s); g_ncalls++; gp_val = (char*)s;
+   CSTRING_ARG(s); g_ncalls++; g_pvoff = (int)(s - gp_line);
    if(!g_conv_ok) CONV_THROW("std::stod")
    return g_stod_ret;
 }
 static inline unsigned long stoul(const char* s)
 {
-   CSTRING_ARG(s); g_ncalls++; gp_val = (char*)s;
+   CSTRING_ARG(s); g_ncalls++; g_pvoff = (int)(s - gp_line);
    if(!g_conv_ok) CONV_THROW("std::stoul")
    return g_stoul_ret;
 }
@@ -132,7 +138,7 @@ static inline int strncmp(const char* a, NameRef b, size_t n)
    CSTRING_ARG(a);
    __CPROVER_assert(n == SPX_SET_MAX_LINE_LEN, "name compare uses SPX_SET_MAX_LINE_LEN");
    g_ncalls++;
-   gp_name = (char*)a;
+   g_pnoff = (int)(a - gp_line);
    const unsigned char* m = b.kind == 0 ? gp_mb : (b.kind == 1 ? gp_mi : gp_mr);
    return m[b.idx] ? 0 : 1;
 }
@@ -168,6 +174,16 @@ static inline int spec_seed_name(const char* s)
           && s[7] == 's' && s[8] == 'e' && s[9] == 'e' && s[10] == 'd';
 }
 
+/* the scanning cursor: see the head comment */
+struct LineCursor
+{
+   int off;
+   LineCursor(char* p) { off = (int)(p - gp_line); gp_off = &off; }
+   char& operator*() const { return gp_line[off]; }
+   LineCursor operator++(int) { LineCursor old = *this; off = off + 1; return old; }
+   operator char*() const { return gp_line + off; }
+};
+
 /* single one-level inheritance only (H : Host); the enumerations are reached through qualified names */
 struct Host
 {
@@ -178,12 +194,12 @@ struct Host
    void record(int kind, int param)
    {
       g_nsets++; g_set_kind = kind; g_set_param = param;
-      g_toff = (int)(gp_type - gp_line); g_noff = (int)(gp_name - gp_line); g_voff = (int)(gp_val - gp_line);
-      g_type_tag = spec_type(gp_type);
+      g_toff = g_ptoff; g_noff = g_pnoff; g_voff = g_pvoff;
+      g_type_tag = spec_type(gp_line + g_ptoff);
    }
    bool setBoolParam(const BoolParam param, const bool value, const bool init = true)
    {
-      record(0, (int)param); g_set_bval = value; g_set_init = init; g_spec_bval = spec_bool(gp_val);
+      record(0, (int)param); g_set_bval = value; g_set_init = init; g_spec_bval = spec_bool(gp_line + g_pvoff);
       g_set_ret = g_setter_ret; return g_setter_ret != 0;
    }
    bool setIntParam(const IntParam param, const int value, const bool init = true)
@@ -198,7 +214,7 @@ struct Host
    }
    void setRandomSeed(unsigned int seed)
    {
-      record(3, 0); g_set_uval = seed; g_name_seed_ok = spec_seed_name(gp_name); g_set_ret = 1;
+      record(3, 0); g_set_uval = seed; g_name_seed_ok = spec_seed_name(gp_line + g_pnoff); g_set_ret = 1;
    }
 };
 
@@ -208,7 +224,7 @@ struct H : Host
    char* line_; int lineNumber_;
    bool body()
    {
-      char* line = line_; const int lineNumber = lineNumber_;
+      LineCursor line(line_); const int lineNumber = lineNumber_;
 #include "parseSettingsLine.inc"
    }
 };
@@ -218,7 +234,6 @@ extern "C" int w_line(char* line, int lineNumber, const unsigned char* mb, const
    Settings st; st.boolParam.name.kind = 0; st.intParam.name.kind = 1; st.realParam.name.kind = 2;
    H h; h._currentSettings = &st; h.spxout = 0; h.line_ = line; h.lineNumber_ = lineNumber;
    gp_line = line; gp_mb = mb; gp_mi = mi; gp_mr = mr;
-   gp_type = line; gp_name = line; gp_val = line;
    return h.body() ? 1 : 0;
 }
 #endif
@@ -233,10 +248,10 @@ static inline int spxSnprintf(char* t, size_t len, const char* s, const char* ar
    __CPROVER_assert(len == SPX_SET_MAX_LINE_LEN - 1, "copy limited to SPX_SET_MAX_LINE_LEN - 1");
    __CPROVER_assert(arg == gp_src && gp_src[g_srclen] == '\0', "source is the caller's NUL-terminated string");
    __CPROVER_havoc_slice(t, SPX_SET_MAX_LINE_LEN);
-   __CPROVER_assume(0 <= g_len && g_len <= (int)len - 1 - g_slack);
+   __CPROVER_assert(0 <= g_len && g_len <= (int)len - 1 - g_slack, "terminator position chosen by the harness is one snprintf can produce");
    t[g_len] = '\0';
    if(g_slack) t[g_len + 1] = '\0';
-   gp_line = t; gp_type = t; gp_name = t; gp_val = t;
+   gp_line = t;
    return g_len;
 }
 struct H : Host
@@ -245,7 +260,10 @@ struct H : Host
    bool body()
    {
       char* string = string_;
-#include "parseSettingsString.inc"
+#include "parseSettingsString_A.inc"
+      /* the one declaration of the body that is replaced: `char* line = parseString;` */
+      LineCursor line(parseString);
+#include "parseSettingsString_B.inc"
    }
 };
 extern "C" int w_string(char* string, const unsigned char* mb, const unsigned char* mi, const unsigned char* mr)
